@@ -20,8 +20,13 @@ from typing import Any, Callable, Dict, Iterable, Iterator, List, Optional, Tupl
 _CTX = mp.get_context("spawn")
 
 
-def _worker_main(conn, env: Dict[str, str], init: Optional[Tuple[str, str]]):
+def _worker_main(conn, env: Dict[str, str], init: Optional[Tuple[str, str]], core: Optional[int] = None):
     os.environ.update(env)
+    if core is not None:
+        try:  # one core per worker: native thread pools size themselves to the visible cores
+            os.sched_setaffinity(0, {core})
+        except Exception:
+            pass
     sys.path.insert(0, os.path.dirname(os.path.dirname(os.path.abspath(__file__))))
     try:
         if init is not None:
@@ -55,18 +60,19 @@ def _worker_main(conn, env: Dict[str, str], init: Optional[Tuple[str, str]]):
 
 
 class _W:
-    def __init__(self, env, init):
-        self.env, self.init = env, init
+    def __init__(self, env, init, core=None):
+        self.env, self.init, self.core = env, init, core
         self.start()
 
     def start(self):
         self.parent, child = _CTX.Pipe()
-        self.proc = _CTX.Process(target=_worker_main, args=(child, self.env, self.init), daemon=True)
+        self.proc = _CTX.Process(target=_worker_main, args=(child, self.env, self.init, self.core), daemon=True)
         self.proc.start()
         child.close()
         self.ready = False
         self.job = None
         self.t0 = 0.0
+        self.limit = 1e9
 
     def kill(self):
         try:
@@ -82,7 +88,10 @@ class _W:
 
 class Pool:
     def __init__(self, n: Optional[int] = None, *, env: Optional[Dict[str, str]] = None,
-                 init: Optional[Tuple[str, str]] = None, job_timeout: float = 300.0):
+                 init: Optional[Tuple[str, str]] = None, job_timeout: float = 300.0, pin: bool = True,
+                 core_offset: int = 0):
+        self.pin = pin
+        self.core_offset = core_offset
         self.n = n or min(16, os.cpu_count() or 4)
         base_env = {"PYTHONHASHSEED": os.environ.get("PYTHONHASHSEED", "0"),
                     "JAX_PLATFORMS": "cpu", "XLA_FLAGS": os.environ.get("XLA_FLAGS", ""),
@@ -97,7 +106,9 @@ class Pool:
         old = os.environ.get("PYTHONHASHSEED")
         os.environ["PYTHONHASHSEED"] = self.env["PYTHONHASHSEED"]
         try:
-            self.workers = [_W(self.env, self.init) for _ in range(self.n)]
+            cores = sorted(os.sched_getaffinity(0)) if hasattr(os, "sched_getaffinity") else []
+            self.workers = [_W(self.env, self.init, cores[(i + self.core_offset) % len(cores)] if self.pin and cores else None)
+                            for i in range(self.n)]
         finally:
             if old is None:
                 os.environ.pop("PYTHONHASHSEED", None)
@@ -106,16 +117,9 @@ class Pool:
         return self
 
     def __exit__(self, *a):
+        # workers are stateless: no graceful shutdown needed (interpreter teardown with JAX loaded takes seconds)
         for w in self.workers:
-            try:
-                w.parent.send(None)
-            except Exception:
-                pass
-        t = time.time()
-        for w in self.workers:
-            w.proc.join(max(0.1, 3 - (time.time() - t)))
-            if w.proc.is_alive():
-                w.kill()
+            w.kill()
         self.workers = []
 
     def _restart(self, w: _W):
@@ -135,22 +139,35 @@ class Pool:
              timeout: Optional[float] = None) -> Iterator[Tuple[int, Any, Any]]:
         """Yield ``(index, payload, result)`` in completion order."""
         timeout = timeout or self.job_timeout
-        it = enumerate(payloads)
+        source = payloads if isinstance(payloads, QueueSource) else None
+        it = enumerate(payloads) if source is None else None
+        counter = 0
         pending = 0
         exhausted = False
         init_fail = 0
 
         def feed(w: _W) -> bool:
-            nonlocal exhausted, pending
+            nonlocal exhausted, pending, counter
             if exhausted:
                 return False
-            try:
-                idx, p = next(it)
-            except StopIteration:
-                exhausted = True
-                return False
+            if source is not None:
+                st, item = source.poll()
+                if st == "wait":
+                    return False
+                if st == "done":
+                    exhausted = True
+                    return False
+                idx, p = counter, item
+                counter += 1
+            else:
+                try:
+                    idx, p = next(it)
+                except StopIteration:
+                    exhausted = True
+                    return False
             w.job = (idx, p)
             w.t0 = time.time()
+            w.limit = (p.get("_timeout") if isinstance(p, dict) else None) or timeout
             w.parent.send((idx, mod, fn, p))
             pending += 1
             return True
@@ -164,7 +181,8 @@ class Pool:
             if exhausted and pending == 0:
                 break
             conns = [w.parent for w in self.workers]
-            ready = wait(conns, timeout=1.0)
+            idle = source is not None and not exhausted and any(w.ready and w.job is None for w in self.workers)
+            ready = wait(conns, timeout=0.05 if idle else 1.0)
             now = time.time()
             for w in self.workers:
                 if w.parent in ready:
@@ -198,7 +216,7 @@ class Pool:
                     else:
                         yield jid, job[1], {"_worker": "exception", **res}
                     feed(w)
-                elif w.job is not None and now - w.t0 > timeout:
+                elif w.job is not None and now - w.t0 > w.limit:
                     job = w.job
                     self._restart(w)
                     pending -= 1
@@ -213,6 +231,28 @@ class Pool:
         for i, _p, r in self.imap(mod, fn, payloads, **kw):
             out[i] = r
         return out
+
+
+class QueueSource:
+    """Non-blocking job source fed by another thread (two-stage pipelines)."""
+
+    def __init__(self) -> None:
+        import queue
+        self.q: "queue.Queue[Any]" = queue.Queue()
+        self.closed = False
+
+    def put(self, item: Any) -> None:
+        self.q.put(item)
+
+    def close(self) -> None:
+        self.closed = True
+
+    def poll(self):
+        import queue
+        try:
+            return "item", self.q.get_nowait()
+        except queue.Empty:
+            return ("done", None) if self.closed and self.q.empty() else ("wait", None)
 
 
 def is_worker_failure(res: Any) -> bool:
